@@ -60,6 +60,18 @@ probe_type!(T5);
 probe_type!(T6);
 probe_type!(T7);
 
+/// Field-less marker states (zero-sized: every box of one has the same dangling address).
+macro_rules! marker_type {
+    ($name:ident) => {
+        #[derive(Clone, Default, Debug, Serialize, Tid, PartialEq)]
+        pub struct $name;
+        impl CustomState<'_> for $name {}
+    };
+}
+marker_type!(Z0);
+marker_type!(Z1);
+marker_type!(Z2);
+
 pub trait ProbeIdx {
     const IDX: u8;
 }
